@@ -119,6 +119,8 @@ def build_and_audit(pid, log):
           "forbidden": [], "broken": []}
     if SHARD is not None:       # the parent of a sharded thorough run has regenerated the constants, built and audited already
         return json.loads(os.environ["VERIF_BUILD_STATUS"])
+    if os.environ.get("VERIF_SKIP_AUDIT") == "1" and "--replay" in sys.argv:   # candidate evaluations of the shrinker
+        return st
     with Lock():
         rc, out = run([PY, os.path.join(VERIF, "harness", "extract_constants.py")], timeout=120)
         log(out.strip())
@@ -298,7 +300,15 @@ class Report:
         """st: build_and_audit status.  search: callable run when the proof or the correspondence is broken,
         returns a failing-input payload or None."""
         violations = []
-        for what, payload in self.prop_fail[:3]:
+        for k, (what, payload) in enumerate(self.prop_fail[:3]):
+            if k == 0:
+                try:
+                    small = shrink_case(self.pid, payload)
+                except Exception:
+                    small = None
+                if small is not None:
+                    violations.append((self.write_replay("failing-input", what + " [shrunk]", small), what, False))
+                    continue
             violations.append((self.write_replay("failing-input", what, payload), what, False))
         broken = list(st["broken"]) + ["correspondence: " + w for w, _ in self.corr_fail[:5]]
         if not violations and broken:
@@ -345,6 +355,94 @@ class Report:
             self.pid, self.tier, self.evaluations, len(self.nontrivial), len(st["discharged"]), n_obl, wall,
             "VIOLATION" if violations else "ok"))
         return 1 if violations else 0
+
+
+# ---------------------------------------------------------------------------------------------------- shrinking a failing input
+SHRINK_FIELDS = {       # case kind -> paths of the lists that may lose elements (the replay must still exit 1)
+    "layer": [("items",)], "force-layer": [("labels",)], "force": [("labels",)], "dist": [("labels",)],
+    "history": [("ops",)], "history-layer": [("ops",)], "ehist": [("ops",)], "perm": [("labels",)],
+    "lhist": [("ops",)], "lticks-history": [("ops",), ("later",)], "tticks-history": [("ops",)], "tscale-history": [("ops",)],
+    "timeline": [("spec", "data")], "dag": [("inst", "cs")], "chain": [("inst", "cs")], "cyclic": [("inst", "cs")], "ties": [("inst", "cs")],
+}
+
+
+def _get(d, path):
+    for k in path:
+        d = d[k]
+    return d
+
+
+def _with(d, path, value):
+    d = json.loads(json.dumps(d, default=str))
+    t = d
+    for k in path[:-1]:
+        t = t[k]
+    t[path[-1]] = value
+    return d
+
+
+def shrink_case(pid, payload, budget_s=45, max_evals=60):
+    """delta debugging on the list-valued parts of a failing case: a candidate is kept when `./check pid --replay candidate` still exits 1
+    (the replay path re-runs the real code and the Lean predicates on exactly that case).  Returns the shrunk payload or None."""
+    case = payload.get("case") or {}
+    paths = SHRINK_FIELDS.get(case.get("kind"))
+    if not paths or os.environ.get("VERIF_SHRINK") == "0":
+        return None
+    t0 = time.time()
+    evals = [0]
+    tmp = os.path.join(VERIF, "replays", ".shrink-%s-%d.json" % (pid, os.getpid()))
+
+    def still_fails(c):
+        if evals[0] >= max_evals or time.time() - t0 > budget_s:
+            return False
+        evals[0] += 1
+        with open(tmp, "w") as fh:
+            json.dump({"property": pid, "case": c}, fh, default=str)
+        try:
+            r = subprocess.run([os.path.join(VERIF, "check"), pid, "--replay", tmp], capture_output=True, text=True, timeout=60,
+                               env=dict(os.environ, VERIF_SKIP_AUDIT="1"))
+            return r.returncode == 1
+        except Exception:
+            return False
+
+    best = json.loads(json.dumps(case, default=str))
+    if not still_fails(best):          # the replay path does not reproduce it (e.g. a sequence-dependent failure): leave it alone
+        if os.path.exists(tmp):
+            os.unlink(tmp)
+        return None
+    before = {"/".join(p): len(_get(best, p)) for p in paths if isinstance(_get(best, p), list)}
+    for path in paths:
+        try:
+            items = _get(best, path)
+        except (KeyError, TypeError):
+            continue
+        if not isinstance(items, list):
+            continue
+        keep_head = 3 if path == ("ops",) and best.get("kind") in ("history", "history-layer", "ehist") else (1 if path == ("ops",) else 0)
+        head, items = items[:keep_head], items[keep_head:]
+        n = 2
+        while len(items) >= 2 and evals[0] < max_evals and time.time() - t0 <= budget_s:
+            chunk = max(1, len(items) // n)
+            reduced = False
+            for i in range(0, len(items), chunk):
+                cand = items[:i] + items[i + chunk:]
+                if cand and still_fails(_with(best, path, head + cand)):
+                    items, n, reduced = cand, max(n - 1, 2), True
+                    best = _with(best, path, head + items)
+                    break
+            if not reduced:
+                if chunk == 1:
+                    break
+                n = min(len(items), n * 2)
+    if os.path.exists(tmp):
+        os.unlink(tmp)
+    after = {"/".join(p): len(_get(best, p)) for p in paths if isinstance(_get(best, p), list)}
+    if after == before:
+        return None
+    out = dict(payload)
+    out["case"] = best
+    out["shrunk"] = {"from": before, "to": after, "replays_run": evals[0], "note": "driver_line / driver_answer below belong to the unshrunk case; re-run with --replay for the shrunk one"}
+    return out
 
 
 def rng_for(seed, salt):
